@@ -87,9 +87,10 @@ class Multiplication:
             raise gfapy.NotUniqueError(
               "The name {} of a copy of segment {} ".format(cn, sn)+
               "is not unique")
+      # (the counts are checked first: a refused call leaves no origin tag)
+      self.__divide_segment_and_connection_counts(s, factor)
       if track_origin and not s.get(origin_tag):
         s.set(origin_tag, sn)
-      self.__divide_segment_and_connection_counts(s, factor)
       if copy_names is None:
         copy_names = self._compute_copy_names(sn, factor)
       for cn in copy_names:
